@@ -453,11 +453,11 @@ def run_c08(ctx):
             continue
         cut += len(re.findall(r'^(?:MESH|IMG)BADDEC ', r['text'], re.M))
         orc = c11.oracle if cmd == 'codec-mesh' else c13.oracle
-        out['failures'] += [f for f in orc(r['text'], origin)[0] if 'truncated-download-panics' in f['signature']]
-        out['diffs'] += ['%s: %s' % (tag, d) for d in r['diffs'] if 'truncated download' in d]
+        out['failures'] += [f for f in orc(r['text'], origin)[0] if 'truncated-download-panics' in f['signature'] or 'decode-panics' in f['signature']]
+        out['diffs'] += ['%s: %s' % (tag, d) for d in r['diffs'] if 'truncated download' in d or 'PANIC' in d]
     out['opstats']['truncated_downloads_decoded'] = cut
     out['evaluations'] = out.get('evaluations', 0) + cut
-    return pc.make_result('C08', ctx, out, 'frames of histories mixing replication traffic with application despawns (between frames and through application systems placed by the scheduler), peers with different registrations, late joins; every update() is run under catch_unwind; plus the real mesh / image decoders on downloads cut off at arbitrary points, under catch_unwind, against the model decoders; non-trivial = distinct (scenario, receiver, kind, key) received')
+    return pc.make_result('C08', ctx, out, 'frames of histories mixing replication traffic with application despawns (between frames and through application systems placed by the scheduler), peers with different registrations, late joins; every update() is run under catch_unwind; plus the real mesh / image decoders, under catch_unwind, against the model decoders: on downloads cut off at arbitrary points and on published images whose data is not extent x texel size (mip chains, block-compressed and texel-less formats); non-trivial = distinct (scenario, receiver, kind, key) received')
 
 
 # ---- C09 -------------------------------------------------------------------------------------
